@@ -426,7 +426,7 @@ func c10Server(c *fw.Ctx, i int) {
 			}
 		}
 		time.Sleep(100 * time.Millisecond)
-		paddr := pub.RC.Conn.LocalAddr().String()
+		paddr := srv.Key(pub.RC.Conn)
 		_ = from
 		pub.Close()
 		s.Notify.WaitSession(3*time.Second, "pub_stop", paddr)
